@@ -1154,7 +1154,14 @@ func c03Constructors(c *Ctx) {
 			if !rowsOK {
 				want = nil
 			}
-			if r.Op != "alloc" || want == nil || len(mk) != 1 || len(fullArgs(mk[0])) != 3 || !sameUnder(ev, F, argN(mk[0], 2), perm) || !isFalse(argN(mk[0], 1)) || ev.LoadField(p.State, r, "stats") != mk[0].Res[0] || ev.LoadField(p.State, r, "breaker") != b {
+			viaFactory := len(mk) == 1 && len(fullArgs(mk[0])) == 3 && sameUnder(ev, F, argN(mk[0], 2), perm) && isFalse(argN(mk[0], 1)) && ev.LoadField(p.State, r, "stats") == mk[0].Res[0]
+			if !viaFactory && len(mk) == 0 {
+				// no stats factory: the leaf constructors directly (a half-open state is never time-based)
+				if made, okLeaf := statsMadeDirectly(ev, p, nil, false, perm); okLeaf && ev.LoadField(p.State, r, "stats") == made {
+					viaFactory = true
+				}
+			}
+			if r.Op != "alloc" || want == nil || !viaFactory || ev.LoadField(p.State, r, "breaker") != b {
 				ok = false
 				c.Fail(c.fn(fn), c.P.FuncPos(fn), "a half-open state must start with fresh count-based stats and as many trial permits as its capacity (success capacity, else execution threshold, else failure capacity)", pathTrace(ev, p))
 			}
@@ -1203,7 +1210,14 @@ func c03Constructors(c *Ctx) {
 			if p.State.Facts.Truth(ts, ts.Cmp("!=", fe, ts.LinConst(0, u))) == triT {
 				want = fe
 			}
-			if r.Op != "alloc" || len(mk) != 1 || len(fullArgs(mk[0])) != 3 || !sameUnder(ev, p.State.Facts, argN(mk[0], 2), want) || !isTrue(argN(mk[0], 1)) || ev.LoadField(p.State, r, "stats") != mk[0].Res[0] {
+			viaFactory := len(mk) == 1 && len(fullArgs(mk[0])) == 3 && sameUnder(ev, p.State.Facts, argN(mk[0], 2), want) && isTrue(argN(mk[0], 1)) && ev.LoadField(p.State, r, "stats") == mk[0].Res[0]
+			if !viaFactory && len(mk) == 0 {
+				period := ev.LoadField(s0, b, "config", "failureThresholdingPeriod")
+				if made, okLeaf := statsMadeDirectly(ev, p, period, true, want); okLeaf && ev.LoadField(p.State, r, "stats") == made {
+					viaFactory = true
+				}
+			}
+			if r.Op != "alloc" || !viaFactory {
 				ok = false
 				c.Fail(c.fn(fn), c.P.FuncPos(fn), "a closed state must start with fresh stats sized by the execution threshold, else the failure thresholding capacity, time-based when a period is configured", pathTrace(ev, p))
 			}
@@ -1667,7 +1681,13 @@ func c03Metrics(c *Ctx) {
 	}
 	// stats factory
 	if fn := c.P.Func("circuitbreaker.newStats"); fn == nil {
-		c.Unresolved("circuitbreaker.newStats", "not found")
+		// no stats factory: which kind of stats a state starts with is then decided where the states are built (the
+		// constructors rule checks the leaf constructors directly); both leaves must exist
+		if c.P.Func("circuitbreaker.newTimedStats") == nil || c.P.Func("circuitbreaker.newCountingStats") == nil {
+			c.Unresolved("circuitbreaker.newStats", "not found")
+		} else {
+			c.Ok("circuitbreaker.newStats", "", "no stats factory: the kind of stats is decided at the state constructors (constructors rule)")
+		}
 	} else {
 		ev := NewEvaluator(c.P, EvalConfig{})
 		ts := ev.TS
@@ -1738,7 +1758,9 @@ func c03Metrics(c *Ctx) {
 						q = a.Args[1]
 					}
 					den := q.Args[1].String()
-					good = q.Op == "bin" && q.Aux == "/" && strings.Contains(q.Args[0].String(), sp.part) && (strings.Contains(den, "occupiedBits") || strings.Contains(den, "executionCount"))
+					good = q.Op == "bin" && q.Aux == "/" && strings.Contains(q.Args[0].String(), sp.part) && (strings.Contains(den, "occupiedBits") || strings.Contains(den, "executionCount") ||
+						// the execution count written out: successes + failures of the same summary
+						(strings.Contains(den, "successes") && strings.Contains(den, "failures") && strings.Contains(den, "+")))
 				}
 			}
 			if !good {
@@ -1753,4 +1775,34 @@ func c03Metrics(c *Ctx) {
 			c.Fail(sp.fn, c.P.FuncPos(fn), "rate lacks the empty or the non-empty case", "")
 		}
 	}
+}
+
+// statsMadeDirectly: the path makes its stats with the leaf constructors themselves instead of through the stats
+// factory: exactly one of newTimedStats(…, period, clock) — only where time-based thresholding is allowed and the path
+// knows a period is configured — or newCountingStats(capacity) with the wanted capacity. Returns the stats object.
+func statsMadeDirectly(ev *Evaluator, p *Path, period *T, timeBasedAllowed bool, capacity *T) (*T, bool) {
+	ts := ev.TS
+	nt := eventsWhere(p, func(e *Event) bool { return isCall(e, "newTimedStats") })
+	nc := eventsWhere(p, func(e *Event) bool { return isCall(e, "newCountingStats") })
+	if len(nt)+len(nc) != 1 || capacity == nil {
+		return nil, false
+	}
+	tb := triF
+	if timeBasedAllowed {
+		if period == nil {
+			return nil, false
+		}
+		tb = p.State.Facts.Truth(ts, ts.Cmp("!=", period, ts.LinConst(0, period.Typ)))
+	}
+	switch tb {
+	case triT:
+		if len(nt) == 1 && len(nt[0].Args) >= 3 && nt[0].Args[1] == period && loadedField(nt[0].Args[2]) == "clock" {
+			return nt[0].Res[0], true
+		}
+	case triF:
+		if len(nc) == 1 && len(nc[0].Args) >= 1 && sameUnder(ev, p.State.Facts, nc[0].Args[0], capacity) {
+			return nc[0].Res[0], true
+		}
+	}
+	return nil, false
 }
